@@ -258,18 +258,40 @@ func releaseScratch(b *[]byte) {
 // This function returns the next byte slice that should be read.
 // `b` must be a valid payload coming from a Header frame.
 func (hp *HPACK) Next(hf *HeaderField, b []byte) ([]byte, error) {
-	return hp.nextField(hf, true, 0, b)
+	b, err := hp.nextField(hf, true, 0, b)
+	if err == errNoField {
+		err = nil
+	}
+
+	return b, err
 }
+
+// errNoField is what nextField returns when the bytes it was given held
+// nothing but dynamic table size updates: they have been applied, and there is
+// no field in hf.
+var errNoField = errors.New("no header field decoded")
 
 // nextField decodes one header field. blockStart says whether b is the start
 // of a header block, which is the only place a dynamic table size update may
 // appear. A CONTINUATION carries on a block rather than starting one.
-func (hp *HPACK) nextField(hf *HeaderField, blockStart bool, fieldsProcessed int, b []byte) ([]byte, error) {
+//
+// A field that is cut short comes back as ErrUnexpectedSize together with the
+// bytes the field starts at, which are the ones to keep until the rest has
+// arrived: a size update in front of it has been applied by then, and decoding
+// it again would apply it twice, in a place where it is not allowed.
+func (hp *HPACK) nextField(hf *HeaderField, blockStart bool, fieldsProcessed int, b []byte) (rest []byte, err error) {
 	var (
-		n   uint64
-		c   byte
-		err error
+		n uint64
+		c byte
 	)
+
+	item := b
+
+	defer func() {
+		if errors.Is(err, ErrUnexpectedSize) {
+			rest = item
+		}
+	}()
 
 	// Only a never-indexed literal makes a field sensitive, and callers decode
 	// a whole header block into the same HeaderField: what the previous field
@@ -432,6 +454,13 @@ loop:
 
 		hp.maxTableSize = uint32(n)
 		hp.shrink()
+
+		// What follows is a new item. If nothing follows, the caller must not
+		// take hf for a field.
+		item = b
+		if len(b) == 0 {
+			return b, errNoField
+		}
 
 		goto loop
 	}
